@@ -336,31 +336,58 @@ def codon_class(letters):
             fwd, stops1, starts1, starts11, _ = _ref_tables()
             s = letters[i] + letters[j] + letters[k]
             c = Codon(s)
-            su = s.upper().replace("U", "T") if False else s.upper()
-            strict = all(ch in NUC for ch in su)
-            exps = {fwd["".join(e)] for e in itertools.product(*[IUPAC[ch] for ch in su])}
-            ok = c.is_strict_codon == strict
-            if strict:
-                ok = ok and c.translate() == fwd[su] and c.translate(strict=False) == fwd[su]
-            else:
-                ok = ok and c.translate() == "X"
+            su = s.upper()
+
+            def verify():
+                strict = all(ch in NUC for ch in su)
+                exps = {fwd["".join(e)] for e in itertools.product(*[IUPAC[ch] for ch in su])}
+                ok = c.is_strict_codon == strict
+                if strict:
+                    ok = ok and c.translate() == fwd[su] and c.translate(strict=False) == fwd[su]
+                else:
+                    ok = ok and c.translate() == "X"
+                    t = c.translate(strict=False)
+                    ok = ok and (t == "X" or exps == {t})
+                ok = ok and c.is_stop_codon == (strict and su in stops1)
+                ok = ok and c.is_canonical_start_codon == (su == "ATG")
+                ok = ok and c.is_start_codon_in_specific_translation_table(TranslationTable.DEFAULT) == (su == "ATG")
+                ok = ok and c.is_start_codon_in_specific_translation_table(TranslationTable.STANDARD) == (su in starts1)
+                ok = ok and c.is_start_codon_in_specific_translation_table(TranslationTable.PROKARYOTE) == (su in starts11)
                 t = c.translate(strict=False)
-                ok = ok and (t == "X" or exps == {t})
-            ok = ok and c.is_stop_codon == (strict and su in stops1)
-            ok = ok and c.is_canonical_start_codon == (su == "ATG")
-            ok = ok and c.is_start_codon_in_specific_translation_table(TranslationTable.DEFAULT) == (su == "ATG")
-            ok = ok and c.is_start_codon_in_specific_translation_table(TranslationTable.STANDARD) == (su in starts1)
-            ok = ok and c.is_start_codon_in_specific_translation_table(TranslationTable.PROKARYOTE) == (su in starts11)
-            t = c.translate(strict=False)
-            syn = {str(x) for x in c.synonymous_codons(include_self=True)}
-            if t == "X":
-                ok = ok and syn == {su}
-            else:
-                # documented: for a translatable ambiguous codon, all strict codons of that amino acid (self is not strict)
-                ok = ok and syn == {cs for cs, aa in fwd.items() if aa == t}
-                ok = ok and {str(x) for x in c.synonymous_codons()} == {cs for cs, aa in fwd.items() if aa == t} - {su}
-            ok = ok and Codon(s.lower()) is c and str(c) == su
-            return ok
+                syn = {str(x) for x in c.synonymous_codons(include_self=True)}
+                if t == "X":
+                    ok = ok and syn == {su}
+                else:
+                    # documented: for a translatable ambiguous codon, all strict codons of that amino acid (self is not strict)
+                    ok = ok and syn == {cs for cs, aa in fwd.items() if aa == t}
+                    ok = ok and {str(x) for x in c.synonymous_codons()} == {cs for cs, aa in fwd.items() if aa == t} - {su}
+                ok = ok and Codon(s.lower()) is c and str(c) == su
+                return ok
+
+            ok = verify()
+            # second use: every answer is the same when asked again on the same (singleton) object, in a different order, and after a caller has
+            # edited the list synonymous_codons() handed out (the library must not hand out its own tables)
+
+            def battery(cd, syn_first):
+                out = []
+                if syn_first:
+                    out.append(sorted(str(x) for x in cd.synonymous_codons(include_self=True)))
+                out += [cd.translate(), cd.translate(strict=False), cd.is_strict_codon, cd.is_stop_codon, cd.is_canonical_start_codon,
+                        [cd.is_start_codon_in_specific_translation_table(tb) for tb in TranslationTable], sorted(str(x) for x in cd.synonymous_codons())]
+                if not syn_first:
+                    out.insert(0, sorted(str(x) for x in cd.synonymous_codons(include_self=True)))
+                return out
+
+            b1 = battery(c, False)
+            handed = c.synonymous_codons(include_self=True)
+            if isinstance(handed, list):
+                del handed[:]
+            handed2 = c.synonymous_codons()
+            if isinstance(handed2, list):
+                handed2.append(c)
+            ok = ok and battery(c, True) == b1 and battery(Codon(su), False) == b1
+            # ... and still the reference answers
+            return ok and verify()
 
     return fn
 
